@@ -24,7 +24,7 @@ LEVEL = "exploration"
 RULE = ("scenario = 1..3 concurrent clients (real send_initialize with a generated supported list, or a raw client) x requested version strata "
         "(each supported; supported +-1 day/month/year; any well-formed date 1925..2125; ill-formed strings; non-strings; absent) x network "
         "latencies; non-trivial = at least one requested version outside the server's supported list, or >= 2 handshakes interleaved")
-PROBES = ["retry_after_client_timeout", "response_queued_while_other_handshake_handled", "requested_unsupported_wellformed", "requested_illformed", "requested_nonstring", "requested_absent", "handshakes_interleaved",
+PROBES = ["client_list_built_from_accessor_and_edited", "retry_after_client_timeout", "response_queued_while_other_handshake_handled", "requested_unsupported_wellformed", "requested_illformed", "requested_nonstring", "requested_absent", "handshakes_interleaved",
           "real_client_mismatch", "real_client_counter_proposal", "supported_echoed"]
 TIERS = {"quick": {"runs": 20000, "wall": 45.0}, "thorough": {"runs": 1500000, "wall": 560.0}}
 ASSUMPTIONS = ["messages cross the in-memory network serialised (model_dump_json(exclude_none)) and re-parsed (parse_message), as over a real transport"]
@@ -49,6 +49,9 @@ def _neighbour(v, rng):
     return f"{y:04d}-{m:02d}-{d:02d}"
 
 
+PUBLISHED_SUPPORTED = ["2025-06-18", "2025-03-26", "2024-11-05"]
+
+
 def generate(rng: random.Random, tier: str) -> dict:
     from_supported = ["2025-06-18", "2025-03-26", "2024-11-05"]
     clients = []
@@ -60,6 +63,10 @@ def generate(rng: random.Random, tier: str) -> dict:
             universe = from_supported + ["2026-01-01", "2025-06-17", "1999-12-31", "v1"]
             c["supported"] = rng.sample(universe, rng.choice([1, 2, 3]))
             c["preferred"] = rng.choice([None, None, c["supported"][-1]])
+            if rng.random() < 0.15:
+                # the client builds its list from the library's accessor and edits what it was handed
+                c["from_accessor"] = {"insert": rng.choice(["2026-01-01", "2025-06-19", "1999-12-31"]), "at": rng.choice([0, 0, 1])}
+                c["preferred"] = None
             if rng.random() < 0.25:
                 # the first attempt times out on the client (slow network), the answer arrives late; then a retry on the same streams
                 c["retry"] = {"supported": rng.sample(from_supported, rng.choice([1, 2, 3])), "preferred": rng.choice([None, "2024-11-05", "2025-03-26"])}
@@ -95,6 +102,8 @@ def simplify(scn):
             cc = copy.deepcopy(scn); cc["clients"][i]["info"] = None; yield cc
         if c.get("retry"):
             cc = copy.deepcopy(scn); del cc["clients"][i]["retry"]; yield cc
+        if c.get("from_accessor"):
+            cc = copy.deepcopy(scn); del cc["clients"][i]["from_accessor"]; yield cc
     if scn["server_delay"]:
         cc = copy.deepcopy(scn); cc["server_delay"] = 0; yield cc
     if scn.get("flush_delay"):
@@ -105,7 +114,12 @@ def execute(scn: dict) -> dict:
     ini = importlib.import_module("chuk_mcp.protocol.messages.initialize.send_messages")
     from chuk_mcp.server.server import MCPServer
     from chuk_mcp.protocol.messages.json_rpc_message import parse_message
-    from chuk_mcp.protocol.types.versioning import SUPPORTED_VERSIONS
+    from chuk_mcp.protocol.types import versioning as _versioning
+    # what the server supports is the published list as it was when the library was imported - NOT whatever the live list object
+    # holds by the end of the run (a caller editing a list it was handed must not change what servers support)
+    SUPPORTED_VERSIONS = list(PUBLISHED_SUPPORTED)
+    if list(_versioning.SUPPORTED_VERSIONS) != SUPPORTED_VERSIONS:
+        _versioning.SUPPORTED_VERSIONS[:] = SUPPORTED_VERSIONS  # left over from an earlier (violating) run in this worker
     from chuk_mcp.protocol.types.errors import VersionMismatchError
 
     fu = FakeUUID(scn["uuid_seed"])
@@ -171,6 +185,11 @@ def execute(scn: dict) -> dict:
                 await anyio.sleep(ticks(c["start"]))
             if c["kind"] == "real":
                 sup, pref = list(c["supported"]), c["preferred"]
+                if c.get("from_accessor"):
+                    mine = ini.get_supported_versions()
+                    mine.insert(min(c["from_accessor"]["at"], len(mine)), c["from_accessor"]["insert"])
+                    sup = mine
+                    sim.probe("client_list_built_from_accessor_and_edited")
                 if c.get("retry"):
                     try:
                         await ini.send_initialize(s2c_recv, c2s_send, timeout=ticks(4), supported_versions=sup, preferred_version=pref)
@@ -234,6 +253,10 @@ def execute(scn: dict) -> dict:
         probe("handshakes_interleaved")
     if scn.get("flush_delay") and len(st["answers"]) >= 2:
         probe("response_queued_while_other_handshake_handled")
+    if list(_versioning.SUPPORTED_VERSIONS) != SUPPORTED_VERSIONS or _versioning.ProtocolVersion.get_all_supported() != SUPPORTED_VERSIONS:
+        V("supported-set-changed", "by-a-caller", f"the library's supported versions changed during the run: {list(_versioning.SUPPORTED_VERSIONS)} "
+                                                  f"(published: {SUPPORTED_VERSIONS}) - a caller edited a list it was handed")
+        _versioning.SUPPORTED_VERSIONS[:] = SUPPORTED_VERSIONS
     for a in st["answers"]:
         req = a["request"]
         p = req.get("params") or {}
